@@ -151,6 +151,30 @@ impl Block for ArMixed {
     }
 }
 
+/// Delay with its control call: `Act::Poke(k)` leaves `k` in `POKE`; the next work() first calls `set_delay(k)`.
+pub struct DelayCtl {
+    inner: Delay<u32>,
+}
+impl rustradio::block::BlockName for DelayCtl {
+    fn block_name(&self) -> &str {
+        "DelayCtl"
+    }
+}
+impl rustradio::block::BlockEOF for DelayCtl {
+    fn eof(&mut self) -> bool {
+        self.inner.eof()
+    }
+}
+impl Block for DelayCtl {
+    fn work(&mut self) -> rustradio::Result<rustradio::block::BlockRet> {
+        let k = POKE.swap(usize::MAX, std::sync::atomic::Ordering::SeqCst);
+        if k != usize::MAX {
+            self.inner.set_delay(k);
+        }
+        self.inner.work()
+    }
+}
+
 pub fn ctor_probes() -> Vec<String> {
     let mixed = quiet(|| -> Result<(), String> {
         let (mut f, r) = feeder::<u32>(0);
@@ -524,7 +548,13 @@ pub fn build_hand(name: &str, rng: &mut Rng) -> Built {
             rig1::<Complex, Complex>(rng, |r| bx!(FftStream::new(r, size)))
         }
         "auenc" => {
-            alphabets = vec![wave_alpha()];
+            // waveform values, the quantiser's edge cases and float specials
+            let mut tbl = wave_alpha().1;
+            for v in [1.5f32, -1.5, 0.99997, -0.99997, 0.00002, -0.00002, 1.0000153, f32::NAN, f32::INFINITY, f32::NEG_INFINITY, 3.0e38, -0.0] {
+                tbl.push(v.to_bits() as u64);
+            }
+            alphabets = vec![(0, tbl)];
+            params = vec![48000];
             rig1::<f32, u8>(rng, |r| bx!(AuEncode::new(r, rustradio::au::Encoding::Pcm16, 48000, 1)))
         }
         "audec" => {
@@ -624,6 +654,23 @@ pub fn build_hand(name: &str, rng: &mut Rng) -> Built {
             let (fi, r) = pkt_feeder::<u8>();
             let (b, o) = VecToStream::new(r);
             Rig { block: Box::new(b), ins: vec![fi], outs: vec![drainer(o)] }
+        }
+        "delayctl" => {
+            let d = *rng.pick(&[0usize, 1, 2, 5, 40, 1500]);
+            params = vec![d as u64];
+            alphabets = vec![(1 << 32, vec![])];
+            POKE.store(usize::MAX, std::sync::atomic::Ordering::SeqCst);
+            rig1::<u32, u32>(rng, |r| {
+                let (b, o) = Delay::new(r, d);
+                (Box::new(DelayCtl { inner: b }) as Box<dyn Block>, o)
+            })
+        }
+        "constsrc" => {
+            let val = *rng.pick(&[0u32, 1, 7, u32::MAX, 0x8000_0000]);
+            params = vec![val as u64];
+            alphabets = vec![];
+            let (b, o) = ConstantSource::new(val);
+            Rig { block: Box::new(b), ins: vec![], outs: vec![drainer(o)] }
         }
         "totext" => {
             let n = rng.range(1, 3);
@@ -879,17 +926,11 @@ pub fn selfcheck(name: &str, rng: &mut Rng, steps: usize, heavy_tags: bool) -> V
     out
 }
 
-fn arity_rig(rng: &mut Rng, nin: usize, nout: usize) -> Rig {
-    let mut fs: Vec<Box<dyn InPort>> = vec![];
-    let mut rs: Vec<ReadStream<u32>> = vec![];
-    for _ in 0..nin {
-        let (f, r) = feeder::<u32>(rng.below(5000));
-        fs.push(f);
-        rs.push(r);
-    }
+fn arity_block(rs: Vec<ReadStream<u32>>, nout: usize) -> (Box<dyn Block>, Vec<ReadStream<u32>>) {
+    let nin = rs.len();
     let mut it = rs.into_iter();
     let mut nx = || it.next().unwrap();
-    let (block, outs): (Box<dyn Block>, Vec<ReadStream<u32>>) = match (nin, nout) {
+    match (nin, nout) {
         (1, 1) => { let (b, x) = Ar11::new(nx()); (Box::new(b), vec![x]) }
         (1, 2) => { let (b, x, y) = Ar12::new(nx()); (Box::new(b), vec![x, y]) }
         (1, 3) => { let (b, x, y, z) = Ar13::new(nx()); (Box::new(b), vec![x, y, z]) }
@@ -899,7 +940,18 @@ fn arity_rig(rng: &mut Rng, nin: usize, nout: usize) -> Rig {
         (3, 1) => { let (b, x) = Ar31::new(nx(), nx(), nx()); (Box::new(b), vec![x]) }
         (3, 2) => { let (b, x, y) = Ar32::new(nx(), nx(), nx()); (Box::new(b), vec![x, y]) }
         _ => { let (b, x, y, z) = Ar33::new(nx(), nx(), nx()); (Box::new(b), vec![x, y, z]) }
-    };
+    }
+}
+
+fn arity_rig(rng: &mut Rng, nin: usize, nout: usize) -> Rig {
+    let mut fs: Vec<Box<dyn InPort>> = vec![];
+    let mut rs: Vec<ReadStream<u32>> = vec![];
+    for _ in 0..nin {
+        let (f, r) = feeder::<u32>(rng.below(5000));
+        fs.push(f);
+        rs.push(r);
+    }
+    let (block, outs) = arity_block(rs, nout);
     Rig { block, ins: fs, outs: outs.into_iter().map(|o| drainer(o) as Box<dyn OutPort>).collect() }
 }
 
@@ -1018,6 +1070,14 @@ pub fn eof_probes(rng: &mut Rng) -> Vec<String> {
                         rig.ins[j].close();
                     }
                 }
+                // the readers of some outputs may be gone: that says nothing about the INPUTS having ended
+                let nout = rig.outs.len();
+                let odrop = (rep as usize / 5) % (1 << nout);
+                for j in 0..nout {
+                    if odrop & (1 << j) != 0 {
+                        rig.outs[j].drop_reader();
+                    }
+                }
                 let got = quiet(|| rig.block.eof());
                 let want = closed == (1 << nin) - 1 && queued == 0;
                 let v = match got {
@@ -1025,9 +1085,48 @@ pub fn eof_probes(rng: &mut Rng) -> Vec<String> {
                     Ok(g) => format!("FAIL eof() = {g}, specification: {want}"),
                     Err(p) => format!("FAIL panic: {p}"),
                 };
-                out.push(format!("!eof {label} inputs={nin} writer-gone-mask={closed:b} sample-queued-mask={queued:b}\t{v}"));
+                out.push(format!("!eof {label} inputs={nin} writer-gone-mask={closed:b} sample-queued-mask={queued:b} reader-gone-mask={odrop:b}\t{v}"));
             }
         }
+    }
+    out
+}
+
+/// C19 on default-size (4 MB) streams: one call of a generated sync `work()` processes exactly
+/// min(shortest input, smallest output space) steps, however many that is.
+pub fn big_step_probes(rng: &mut Rng) -> Vec<String> {
+    let mut out = vec![];
+    for (nin, nout) in [(1usize, 1usize), (2, 1), (1, 2), (2, 2), (3, 3)] {
+        // the library's default stream size
+        rustradio::verif::set_stream_size(0);
+        let mut ws = vec![];
+        let mut rs = vec![];
+        for _ in 0..nin {
+            let (w, r) = rustradio::stream::new_stream::<u32>();
+            ws.push(w);
+            rs.push(r);
+        }
+        let (mut block, outs) = arity_block(rs, nout);
+        rustradio::verif::set_stream_size(4096);
+        let cap = ws[0].free();
+        let amounts: Vec<usize> = (0..nin).map(|_| rng.range(70_000.min(cap), cap.min(400_000))).collect();
+        for j in 0..nin {
+            let mut wb = ws[j].write_buf().unwrap();
+            for i in 0..amounts[j] {
+                wb.slice()[i] = (i % 1000) as u32;
+            }
+            wb.produce(amounts[j], &[]);
+        }
+        let want = *amounts.iter().min().unwrap();
+        let r = quiet(|| block.work().map(|_| ()).map_err(|e| e.to_string()));
+        let got: Vec<usize> = outs.iter().map(|o| o.read_buf().map(|(b, _)| b.len()).unwrap_or(usize::MAX)).collect();
+        let v = match r {
+            Err(p) => format!("FAIL panic: {p}"),
+            Ok(Err(e)) => format!("FAIL error: {e}"),
+            Ok(Ok(())) if got.iter().all(|g| *g == want) => "pass".to_string(),
+            Ok(Ok(())) => format!("FAIL one call emitted {got:?} samples, specification: {want} on every output"),
+        };
+        out.push(format!("!bigsteps arity {nin} {nout} readable={amounts:?} capacity={cap}\t{v}\t{}", if v == "pass" { "" } else { "big-steps" }));
     }
     out
 }
@@ -1203,7 +1302,17 @@ pub fn case(name: &str, rng: &mut Rng, steps: usize, heavy_tags: bool) -> String
     let nout = built.rig.outs.len();
     let out_cap = built.rig.outs.iter().map(|o| o.cap()).min().unwrap_or(4096);
     let in_cap = built.rig.ins.iter().map(|i| i.cap()).max().unwrap_or(4096);
-    let ins: Vec<InSpec> = built
+    let ins: Vec<InSpec> = if built.name == "v2s" {
+        let mut v = gen_inspecs(&built, rng, heavy_tags);
+        // packets around the capacity of the output stream: exact fit, one more, never fits
+        if rng.chance(1, 3) && !v[0].pkts.is_empty() {
+            let at = rng.below(v[0].pkts.len());
+            let big = out_cap - 2 + rng.below(5);
+            v[0].pkts.insert(at, big);
+            v[0].len += big;
+        }
+        v
+    } else { built
         .alphabets
         .iter()
         .map(|(m, tbl)| {
@@ -1222,9 +1331,17 @@ pub fn case(name: &str, rng: &mut Rng, steps: usize, heavy_tags: bool) -> String
             }
             InSpec { pkts: vec![], len, seed: rng.next() >> 8, m: *m, tbl: tbl.clone(), tags, fixed: None }
         })
-        .collect();
+        .collect() };
     let lens: Vec<usize> = ins.iter().map(|i| i.len).collect();
-    let acts = gen_schedule(rng, nin, nout, &lens, out_cap, steps);
+    let mut acts = gen_schedule(rng, nin, nout, &lens, out_cap, steps);
+    if built.name == "delayctl" {
+        // the delay is changed a few times while the stream runs (grown and shrunk)
+        for _ in 0..rng.range(0, 4) {
+            let at = rng.below(acts.len().min(steps + 8) + 1);
+            let d = *rng.pick(&[0usize, 1, 2, 3, 5, 7, 40, 100, 1500]);
+            acts.insert(at, Act::Poke(d));
+        }
+    }
     let req = request(&built.name, &built.params, &built.rig, &ins, &acts);
     let obs = run_case(built.rig, &ins, &acts);
     format!("{req}\t{obs}")
@@ -1239,7 +1356,7 @@ pub fn run(args: &[String]) -> Vec<String> {
     let only_block = arg(args, "--block");
     let mut out = Vec::new();
     let names: Vec<&str> = match set.as_str() {
-        "modelled" => SYNC_NAMES.iter().chain(ARITY_NAMES.iter()).chain(["skip", "delay", "resampler", "rtlsdr", "s2pdu", "totext", "audec", "zerocross", "zerocross_clk", "symsync", "symsync_clk"].iter()).copied().collect(),
+        "modelled" => SYNC_NAMES.iter().chain(ARITY_NAMES.iter()).chain(["skip", "delay", "resampler", "rtlsdr", "s2pdu", "totext", "audec", "zerocross", "zerocross_clk", "symsync", "symsync_clk", "v2s", "constsrc", "delayctl", "auenc"].iter()).copied().collect(),
         "sync" => SYNC_NAMES.to_vec(),
         "arity" => ARITY_NAMES.to_vec(),
         "hand" => HAND_NAMES.to_vec(),
@@ -1264,6 +1381,8 @@ pub fn run(args: &[String]) -> Vec<String> {
         out.extend(ctor_probes());
         let mut r = rng.fork();
         out.extend(eof_probes(&mut r));
+        let mut r = rng.fork();
+        out.extend(big_step_probes(&mut r));
     }
     for _ in 0..arg_usize(args, "--zc-ideal", 0) {
         let mut r = rng.fork();
